@@ -1,5 +1,6 @@
 // Ghost specification shared by all units (DESIGN.md 3).  No repo code here.
 use vstd::prelude::*;
+#[allow(unused_imports)] use vstd::std_specs::iter::IteratorSpec;
 use vstd::bytes::*;
 verus! {
 
@@ -369,7 +370,16 @@ pub open spec fn append_all(q: QView, items: Seq<(u64, Seq<u8>)>) -> QView
 }
 
 /// ghost: the byte strings a payload iterator yields (each `impl Buf` read to its end)
-pub uninterp spec fn iter_payloads<T>(it: T) -> Seq<Seq<u8>>;
+#[verifier::opaque]
+#[verifier::prophetic]
+pub open spec fn iter_payloads<B: crate::vshim::Buf, T: Iterator<Item = B>>(it: T) -> Seq<Seq<u8>> {
+    it.remaining().map_values(|b: B| b.rem())
+}
+
+/// the payload iterator behaves like a finite sequence (vstd's iterator laws)
+pub open spec fn iter_ok<T: Iterator>(it: T) -> bool {
+    it.obeys_prophetic_iter_laws() && it.decrease() is Some
+}
 
 /// the batch an append of payloads `ps` at first position `pos` stores: consecutive positions
 pub open spec fn items_of(pos: u64, ps: Seq<Seq<u8>>) -> Seq<(u64, Seq<u8>)> {
@@ -546,6 +556,26 @@ pub proof fn lemma_parse_ser_entry(e: EntryView)
 }
 
 /// an empty batch serializes to nothing, a non-empty one to something
+pub proof fn lemma_ser_items_push(items: Seq<(u64, Seq<u8>)>, x: (u64, Seq<u8>))
+    ensures ser_items(items.push(x)) == ser_items(items) + ser_item(x.0, x.1),
+    decreases items.len(),
+{
+    if items.len() == 0 {
+        let s = items.push(x);
+        assert(s[0] == x);
+        assert(s.skip(1).len() == 0);
+        assert(ser_items(s.skip(1)) =~= Seq::<u8>::empty());
+        assert(ser_items(s) =~= ser_item(x.0, x.1) + ser_items(s.skip(1)));
+        assert(ser_items(items) =~= Seq::<u8>::empty());
+        assert(ser_items(s) =~= ser_items(items) + ser_item(x.0, x.1));
+    } else {
+        lemma_ser_items_push(items.skip(1), x);
+        assert(items.push(x).skip(1) =~= items.skip(1).push(x));
+        assert(items.push(x)[0] == items[0]);
+        assert(ser_items(items.push(x)) =~= ser_items(items) + ser_item(x.0, x.1));
+    }
+}
+
 pub proof fn lemma_ser_items_empty(items: Seq<(u64, Seq<u8>)>)
     ensures ser_items(items).len() == 0 <==> items.len() == 0,
 {
